@@ -704,6 +704,13 @@ func (FramesFaults) Execute(pl engine.Plan, c *engine.RunCtx) *engine.Failure {
 							return livenessOrPanic("C07.rderr", step, pan, what)
 						}
 						if int64(starts[i])+lens[i] <= int64(k) {
+							if piggy && int64(starts[i])+lens[i] == int64(k) && err != nil && cause(err) == simio.ErrInjected && n == lens[i] {
+								// held back: the error arrived in the same Read as the frame's
+								// last bytes; whether a complete frame then still counts as
+								// success is not stated
+								st.Inc("probe.C07.rderr_piggybacked_on_last_byte_reported")
+								break
+							}
 							if err != nil || n != lens[i] || consumed != n || !verOK(ver, frames[i].spec.WantVersions()) || !frames[i].spec.SameContent(msg) {
 								return engine.Failf("C07.rderr.before", step, "%s: frame %d was delivered completely before the error but Unmarshal gave (n=%d, err=%v, consumed=%d)", what, i, n, err, consumed)
 							}
